@@ -466,6 +466,12 @@ func genC14(g *sim.Stream, f *sim.Stream) *c14Prog {
 		b.WriteString("nst := spawn(func() {\n  import nestmod as nx\n  nx.bump()\n  gch := spawn(func() { import nestmod as ny; return [ny.get(), ny.bump()] })\n  r := gch.wait()\n  return [nx.get(), r[0], r[1]]\n})\nobs.append(nst.wait())\n")
 		obs("[2, 1, 2]")
 	}
+	if g.Chance(1, 4) {
+		// two modules in different directories whose files are the same text,
+		// byte for byte: two modules all the same, each with its own globals
+		b.WriteString("import \"twa/tw\" as twa\nimport \"twb/tw\" as twb\ntwa.bump()\ntwa.bump()\nobs.append([twa.get(), twb.get(), twb.bump(), twa.get(), twa.label, twb.label])\n")
+		obs("[2, 0, 1, 2, \"tw\", \"tw\"]")
+	}
 	b.WriteString("obs\n")
 	p.Main = b.String()
 	return p
@@ -603,6 +609,8 @@ func runC14(rc *fw.RunCtx) {
 		sfs.Files[m.Path+".risor"] = moduleSource(prog.Mods, i)
 	}
 	sfs.Files["outside_probe_inside.risor"] = "tick(\"inside-decoy\")\n"
+	sfs.Files["twa/tw.risor"] = "n := 0\nlabel := \"tw\"\nfunc bump() { n = n + 1; return n }\nfunc get() { return n }\n"
+	sfs.Files["twb/tw.risor"] = sfs.Files["twa/tw.risor"]
 	sfs.Files["nestmod.risor"] = "tick(\"nestmod\")\nstate := 0\nfunc bump() { state = state + 1; return state }\nfunc get() { return state }\n"
 	var imp importer.Importer
 	root := ""
@@ -772,6 +780,8 @@ func runC14(rc *fw.RunCtx) {
 			// same names, other contents: every body reports itself as "B:<path>"
 			sfsB.Files[m.Path+".risor"] = strings.Replace(moduleSource(prog.Mods, i), fmt.Sprintf("tick(%q)", m.Path), fmt.Sprintf("tick(%q)", "B:"+m.Path), 1)
 		}
+		sfsB.Files["twa/tw.risor"] = sfs.Files["twa/tw.risor"]
+		sfsB.Files["twb/tw.risor"] = sfs.Files["twb/tw.risor"]
 		sfsB.Files["nestmod.risor"] = strings.Replace(sfs.Files["nestmod.risor"], "tick(\"nestmod\")", "tick(\"B:nestmod\")", 1)
 		impB := importer.NewFSImporter(importer.FSImporterOptions{GlobalNames: names, SourceFS: sfsB, Extensions: []string{".risor", ".rsr"}})
 		g3 := baseGlobals(map[string]any{"tick": th3.builtin(), "maybe_fail": th3.failBuiltin()})
